@@ -33,10 +33,10 @@ type node struct {
 	mp     *atree.OrderedMap
 	vid    string
 	parent *node
-	elems  []sval          // arrays
-	kv     map[hx.TV]sval  // maps
-	live   bool            // not disposed
-	ty     uint64          // type info given at creation
+	elems  []sval         // arrays
+	kv     map[hx.TV]sval // maps
+	live   bool           // not disposed
+	ty     uint64         // type info given at creation
 }
 
 type nestEnv struct {
@@ -272,6 +272,9 @@ func runNestedProgram(e *nestEnv, nOps int) {
 		}
 	}
 	e.st.Ops += nOps
+	if e.st.HarnessErr == "" && len(e.st.Violations) == 0 {
+		e.epilogueDeepRemove()
+	}
 	maxDepth := 0
 	for _, n := range e.nodes {
 		if e.attached(n) && e.depth(n) > maxDepth {
@@ -468,6 +471,83 @@ func (e *nestEnv) disposeStorable(s atree.Storable) {
 	if id, ok := s.(atree.SlabIDStorable); ok {
 		e.w.L("DSP id=%s", hx.IDStr(atree.SlabID(id)))
 		_ = e.ps.Remove(atree.SlabID(id))
+	}
+}
+
+// deepRemove is the caller-side idiom for disposing of a value (cmd/smoke, Cadence): empty every
+// container it holds with PopIterate, recursively, and remove the slab a reference points to.
+func (e *nestEnv) deepRemove(s atree.Storable) {
+	v, err := s.StoredValue(e.rec)
+	if err != nil {
+		e.violation("C09", fmt.Sprintf("a storable handed out by PopIterate does not resolve: %v", err))
+		return
+	}
+	e.deepRemoveValue(v)
+	inner := s
+	for {
+		ws, ok := inner.(atree.WrapperStorable)
+		if !ok {
+			break
+		}
+		inner = ws.UnwrapAtreeStorable()
+	}
+	if id, ok := inner.(atree.SlabIDStorable); ok {
+		if err := e.rec.Remove(atree.SlabID(id)); err != nil {
+			e.violation("C09", fmt.Sprintf("removing referenced slab %s: %v", hx.IDStr(atree.SlabID(id)), err))
+		}
+	}
+}
+
+func (e *nestEnv) deepRemoveValue(v atree.Value) {
+	for {
+		sv, ok := v.(hx.SomeValue)
+		if !ok {
+			break
+		}
+		v = sv.V
+	}
+	var err error
+	switch x := v.(type) {
+	case *atree.Array:
+		err = x.PopIterate(func(s atree.Storable) { e.deepRemove(s) })
+	case *atree.OrderedMap:
+		err = x.PopIterate(func(k, v atree.Storable) { e.deepRemove(k); e.deepRemove(v) })
+	}
+	if err != nil {
+		e.violation("C09", fmt.Sprintf("PopIterate during deep removal failed: %v", err))
+	}
+}
+
+// epilogueDeepRemove (model-free, after the last compared trace line): every container that is still
+// alive - the outermost one and the detached ones - is disposed of with the deep-removal idiom.
+// C09: afterwards the storage holds no slab at all, pending or committed ("bulk pop releases every
+// slab of the tree except the root" + the caller removes what was handed back).
+func (e *nestEnv) epilogueDeepRemove() {
+	e.st.Hit("epilogue-deep-remove")
+	tops := append([]*node{e.root}, e.detached...)
+	for _, n := range tops {
+		e.deepRemoveValue(n.value(0))
+		if err := e.rec.Remove(n.vidSlabID()); err != nil {
+			e.violation("C09", fmt.Sprintf("removing root of container %d: %v", n.h, err))
+		}
+	}
+	var left []string
+	for id, sl := range atree.VerifDeltas(e.ps) {
+		if sl != nil {
+			left = append(left, hx.IDStr(id)+"(pending)")
+		}
+	}
+	if err := e.ps.FastCommit(2); err != nil {
+		e.violation("C09", "commit after deep removal failed: "+err.Error())
+		return
+	}
+	for _, id := range e.ledger.SortedIDs() {
+		left = append(left, hx.IDStr(id))
+	}
+	if len(left) > 0 {
+		sort.Strings(left)
+		e.violation("C09", fmt.Sprintf("after deep removal of every container (%d top-level, %d created) the storage still holds %d slabs: %s",
+			len(tops), len(e.nodes), len(left), strings.Join(left, " ")))
 	}
 }
 
